@@ -297,6 +297,14 @@ func solveOb(o *Obligation, qdir string, timeoutS int, thorough bool, expectSat 
 		all = append(all, r)
 		return r, all, full
 	}
+	// micro: only hypotheses within three trigger steps of the goal
+	micro := writeQuery(qdir, base+".micro", o.BuildQueryD(false, true, true, true, 1.0, 3))
+	gm := runSolver("z3-new", micro, minInt(timeoutS, 1))
+	gm.Solver = "z3-new(ground,micro)"
+	all = append(all, gm)
+	if gm.Status == "unsat" && !thorough {
+		return gm, all, micro
+	}
 	tight := writeQuery(qdir, base+".tight", o.BuildQueryT(false, true, true, true, 1.0))
 	gt := runSolver("z3-new", tight, minInt(timeoutS, 1))
 	gt.Solver = "z3-new(ground,tight)"
